@@ -45,7 +45,7 @@ var payloadKinds = []string{"plain", "id", "data", "id+data", "empty-id"}
 var formatKinds = []string{"unset", "json", "text", "invalid"}
 var sourceKinds = []string{"set", "nil", "empty"}
 var schemaKinds = []string{"nil", "set", "empty"}
-var signerKinds = []string{"nil", "ok", "failing"}
+var signerKinds = []string{"nil", "ok", "failing", "failing+cancels-ctx"}
 var predKinds = []string{"nil", "true", "false", "error"}
 
 var errSign = errors.New("signer fails")
@@ -82,6 +82,8 @@ func allCases() []caseSpec {
 }
 
 var seenIDs = map[string]string{}
+
+var cancelProcess = func() {}
 
 // runCase returns the first violation and, separately, the known-class note
 // about the misspelled content-type member (checked without masking the rest).
@@ -163,6 +165,13 @@ func runCaseInner(c caseSpec, note *string) string {
 			signerInputs = append(signerInputs, append([]byte(nil), b...))
 			return "", errSign
 		}
+	case "failing+cancels-ctx":
+		// the context becomes done while the signer runs (a signer with its own deadline)
+		f.Signer = func(_ context.Context, b []byte) (string, error) {
+			signerInputs = append(signerInputs, append([]byte(nil), b...))
+			cancelProcess()
+			return "", errSign
+		}
 	}
 	typ := el.EventType("audit")
 	if c.listed {
@@ -181,7 +190,10 @@ func runCaseInner(c caseSpec, note *string) string {
 	}
 	created := time.Date(2023, 5, 6, 7, 8, 9, 987654321, time.UTC)
 	e := &el.Event{Type: typ, CreatedAt: created, Formatted: map[string][]byte{}, Payload: payload}
-	out, err := f.Process(context.Background(), e)
+	pctx, cancel := context.WithCancel(context.Background())
+	cancelProcess = cancel
+	out, err := f.Process(pctx, e)
+	cancel()
 
 	invalid := sourceKinds[c.source] != "set" || formatKinds[c.format] == "invalid" || schemaKinds[c.schema] == "empty" || payloadKinds[c.payload] == "empty-id"
 	if invalid {
@@ -191,7 +203,7 @@ func runCaseInner(c caseSpec, note *string) string {
 		return ""
 	}
 	mustSign := c.signer != 0 && c.listed
-	if mustSign && signerKinds[c.signer] == "failing" {
+	if mustSign && strings.HasPrefix(signerKinds[c.signer], "failing") {
 		if out != nil || err == nil {
 			return fmt.Sprintf("signing failed, yet Process returned (forwarded=%v, err=%v): an event whose signing failed must not be forwarded unsigned", out != nil, err)
 		}
@@ -374,7 +386,7 @@ func main() {
 			res.Samples = append(res.Samples, cases[job.Scn*chunk].String())
 			return res
 		},
-		Rule:        "the full product payload {plain, ID, Data, ID+Data, ID()==\"\"} x Format {unset, json, text, invalid} x Source {set, nil, empty} x Schema {nil, set, empty} x Signer {nil, succeeding, failing} x event type {listed, not listed for signing} x Predicate {nil, true, false, error} = 4320 cases on the real FormatterFilter; the emitted bytes are parsed back: required members, specversion 1.0, time, data (payload or Data()), content type, schema, indentation, fresh unique ids; signed iff signer and listed, serialized base64url-decodes to exactly the bytes the signer saw and to the unsigned document (byte-identical to an unsigned twin run when the id is fixed), serialized_hmac is the signer's result; failing signer => not forwarded; the document stored for the previously formatted event stays unchanged; invalid configurations and empty IDs rejected.",
+		Rule:        "the full product payload {plain, ID, Data, ID+Data, ID()==\"\"} x Format {unset, json, text, invalid} x Source {set, nil, empty} x Schema {nil, set, empty} x Signer {nil, succeeding, failing, failing while the context becomes done} x event type {listed, not listed for signing} x Predicate {nil, true, false, error} = 5760 cases on the real FormatterFilter; the emitted bytes are parsed back: required members, specversion 1.0, time, data (payload or Data()), content type, schema, indentation, fresh unique ids; signed iff signer and listed, serialized base64url-decodes to exactly the bytes the signer saw and to the unsigned document (byte-identical to an unsigned twin run when the id is fixed), serialized_hmac is the signer's result; failing signer => not forwarded; the document stored for the previously formatted event stays unchanged; invalid configurations and empty IDs rejected.",
 		Assumptions: []string{"uniqueness of generated ids is checked across the cases of one worker process only (probabilistic property of a 10-character random id)"},
 		QuickBudget: 120 * time.Second, ThoroughBudget: 10 * time.Minute,
 	})
